@@ -96,9 +96,9 @@ func c01Embedded(c *vrep.Ctx) {
 // pool of documents for planted sequences: short header, long license, a
 // document contained in another (MPL in NPL), identical twins, tiny ones.
 var c01Pool = []string{
-	"License/MIT/license.txt", "Header/Apache-2.0/header.txt", "License/MPL-1.1/license.txt", "License/NPL-1.1/license.txt",
-	"License/WTFPL/license.txt", "License/WTFPL/v2.txt", "License/BSD-3-Clause/license.txt", "License/ISC/license.txt",
-	"License/Apache-2.0/license.txt", "License/GPL-2.0/license.txt", "Header/GPL-2.0/header.txt", "License/Unlicense/license.txt",
+	"License/MIT/pristine.txt", "Header/Apache-2.0/header.txt", "License/MPL-1.1/license.txt", "License/NPL-1.1/license.txt",
+	"License/WTFPL/license.txt", "License/WTFPL/v2.txt", "License/BSD-3-Clause/pristine.txt", "License/ISC/license.txt",
+	"License/Apache-2.0/pristine.txt", "License/GPL-2.0/license.txt", "Header/GPL-2.0/header.txt", "License/Unlicense/license.txt",
 }
 
 func c01PoolDocs() []vDoc {
